@@ -288,9 +288,11 @@ func (m *Dense) Mul(a, b Matrix) {
 	m.reuseAsNonZeroed(ar, bc)
 	var restore func()
 	if m == aU {
+		m.checkOverlapMatrix(bU)
 		m, restore = m.isolatedWorkspace(aU)
 		defer restore()
 	} else if m == bU {
+		m.checkOverlapMatrix(aU)
 		m, restore = m.isolatedWorkspace(bU)
 		defer restore()
 	}
